@@ -59,7 +59,7 @@ structure PartFrom (prev : Nat) (e : List Nat) (n : Nat) : Prop where
   le : ∀ j ∈ prev :: e, j ≤ n
   last : (prev :: e).getLast? = some n
 
-theorem getD_mem (e : List Nat) (k : Nat) (hk : k < e.length) : e.getD k 0 ∈ e := by
+theorem getD_mem_p (e : List Nat) (k : Nat) (hk : k < e.length) : e.getD k 0 ∈ e := by
   rw [List.getD_eq_getElem?_getD, List.getElem?_eq_getElem hk]
   exact List.getElem_mem hk
 
@@ -155,7 +155,7 @@ theorem clustersFrom_nonempty_from (s : List α) (prev : Nat) (e : List Nat)
 
 theorem PartFrom.le_getD {prev : Nat} {e : List Nat} {n : Nat} (h : PartFrom prev e n)
     (k : Nat) (hk : k < e.length) : prev < e.getD k 0 := by
-  have hm : e.getD k 0 ∈ e := getD_mem e k hk
+  have hm : e.getD k 0 ∈ e := getD_mem_p e k hk
   exact (List.pairwise_cons.1 h.sorted).1 _ hm
 
 theorem clustersFrom_take_from (s : List α) (prev : Nat) (e : List Nat)
@@ -227,7 +227,7 @@ theorem Part.cOff_le (h : Part e s.length) {a : Nat} (ha : a ≤ e.length) :
   unfold cOff
   split
   · omega
-  · exact (h.pos _ (getD_mem e (a - 1) (by omega))).2
+  · exact (h.pos _ (getD_mem_p e (a - 1) (by omega))).2
 
 theorem Part.cOff_mono (h : Part e s.length) {a b : Nat} (hab : a ≤ b) (hb : b ≤ e.length) :
     cOff e a ≤ cOff e b := by
@@ -649,7 +649,7 @@ end chars
 section edits
 variable {α : Type} {cx : Ctx α}
 
-theorem Editor.withText_self (ed : Editor α) : ed.withText ed.text = ed := by
+theorem Editor.withText_self_p (ed : Editor α) : ed.withText ed.text = ed := by
   cases ed <;> rfl
 
 theorem Spec.insert_eq (t : List α) (p : Int) (x : List α) :
@@ -699,7 +699,7 @@ theorem Editor.delete_eq_spec (hwf : cx.WF) (ed : Editor α) (s e : Int) :
   · have : a = b := by omega
     subst this
     rw [if_pos h, ← List.flatten_append, List.take_append_drop, clusters_flatten hwf,
-      Editor.withText_self]
+      Editor.withText_self_p]
     rfl
   · rw [if_neg h, Editor.charsTo_eq_spec hwf, Editor.charsFrom_eq_spec hwf,
       Spec.posNat_of_nat _ a (by omega), Spec.posNat_of_nat _ b hb]
